@@ -9,12 +9,15 @@ import json
 import multiprocessing as mp
 import os
 
-from harness import tlc
+from harness import tlc, watch
 
 SPEC_DIR = "/verif/specs/colang2"
 LEVEL = "model_checking"
 LIT = {"i0": "0", "se": '""', "bF": "False", "i1": "1", "ss": '"s"', "bT": "True", "n": "None", "l12": "[1, 2]", "da1": '{"a": 1}', "i7": "7", "sd": '"d"'}
 PY = {"i0": 0, "se": "", "bF": False, "i5": 5, "i1": 1, "ss": "s", "bT": True, "n": None, "l12": [1, 2], "da1": {"a": 1}, "i7": 7, "sd": "d"}
+
+
+CASE_LIMIT = 30     # seconds; a case takes milliseconds
 
 
 def tok(v):
@@ -28,7 +31,7 @@ def tok(v):
     return "?" + repr(v)
 
 
-def program(sig, call, form):
+def program(sig, call, form, ord="pf"):
     n = len(sig)
     params = " ".join("$p%d" % (i + 1) + ("" if d == "-" else "=" + LIT[d]) for i, d in enumerate(sig))
     echo = ", ".join("p%d=$p%d" % (i + 1, i + 1) for i in range(n))
@@ -39,9 +42,10 @@ def program(sig, call, form):
         callee += "  return 5\n"
     pos = [LIT[t] for t in call["pos"]]
     named = [(i, LIT[t]) for i, t in call["named"]]
-    spaced = " ".join(pos + ["$p%d=%s" % (i, v) for i, v in named])
+    nm = ["$p%d=%s" % (i, v) for i, v in named]
+    spaced = " ".join({"pf": pos + nm, "nf": nm + pos, "mid": pos[:1] + nm + pos[1:]}[ord])
     paren = "(" + ", ".join(pos + ["p%d=%s" % (i, v) for i, v in named]) + ")"
-    if any(t == "l12" for t in call["pos"][1:]):
+    if any(t == "l12" for t in call["pos"][1:]) or (ord != "pf" and "l12" in call["pos"]):
         # `x [1, 2]` after another positional argument would read as a subscript: use the parenthesised form
         spaced = paren[0:0] + paren
     sib = "flow sib $x\n  $mine = $x\n  $loc = $x\n  match Go(id=$x)\n  send Sib(x=$x, mine=$mine, loc=$loc)\n\nflow other\n  match Never2()\n"
@@ -64,16 +68,21 @@ def _worker(chunk):
     from harness import colang2
     sm = colang2.sm
     out = []
-    for (k, sig, call, form) in chunk:
-        src = program(sig, call, form)
+    for (k, sig, call, form, ord) in chunk:
+        src = program(sig, call, form, ord)
         rec = {"k": k, "error": None, "echo": None, "ret": None, "caller_ok": False, "sibling_ok": False, "src": src}
         try:
-            st = colang2.start_main(colang2.compile_program(src))
-            evs = list(st.outgoing_events)
-            st = sm.run_to_completion(st, {"type": "Go", "id": 1})
-            evs2 = list(st.outgoing_events)
-            st = sm.run_to_completion(st, {"type": "Go", "id": 2})
-            evs2 += list(st.outgoing_events)
+            with watch.limit(CASE_LIMIT):
+                st = colang2.start_main(colang2.compile_program(src))
+                evs = list(st.outgoing_events)
+                st = sm.run_to_completion(st, {"type": "Go", "id": 1})
+                evs2 = list(st.outgoing_events)
+                st = sm.run_to_completion(st, {"type": "Go", "id": 2})
+                evs2 += list(st.outgoing_events)
+        except watch.CaseTimeout:
+            rec["error"] = "no result: the interpreter did not come back within %d s" % CASE_LIMIT
+            out.append(rec)
+            continue
         except Exception as ex:
             rec["error"] = "%s: %s" % (type(ex).__name__, str(ex)[:200])
             out.append(rec)
@@ -117,7 +126,7 @@ def pair_program(sig, c1, c2, kind):
 
     def args(call):
         pos = [lit[t] for t in call["pos"]]
-        if any(t == "l12" for t in call["pos"][1:]):
+        if any(t == "l12" for t in call["pos"][1:]) or (ord != "pf" and "l12" in call["pos"]):
             return "(" + ", ".join(pos + ["p%d=%s" % (i, lit[t]) for i, t in call["named"]]) + ")"
         named = ["$p%d=%s" % (i, lit[t]) for i, t in call["named"]]
         return " " + " ".join(pos + named)
@@ -133,8 +142,13 @@ def _pair_worker(chunk):
         src = pair_program(sig, c1, c2, kind)
         rec = {"k": k, "error": None, "echoes": [], "src": src, "ret": False}
         try:
-            st = colang2.start_main(colang2.compile_program(src))
-            evs = list(st.outgoing_events)
+            with watch.limit(CASE_LIMIT):
+                st = colang2.start_main(colang2.compile_program(src))
+                evs = list(st.outgoing_events)
+        except watch.CaseTimeout:
+            rec["error"] = "no result: the interpreter did not come back within %d s" % CASE_LIMIT
+            out.append(rec)
+            continue
         except Exception as ex:
             rec["error"] = "%s: %s" % (type(ex).__name__, str(ex)[:200])
             out.append(rec)
@@ -186,7 +200,7 @@ def run(ctx):
     r = tlc.run("MC_FlowCall.tla", cfg, ctx.sub("emit"), spec_dirs=[SPEC_DIR], workers=1, timeout=3000)
     cases = [p for p in r.printed if "sig" in p]
     ctx.log("TLC: %d (signature, call, form) cases in partition %d/%d" % (len(cases), part, parts))
-    work = [(k, c["sig"], c["call"], c["form"]) for k, c in enumerate(cases)]
+    work = [(k, c["sig"], c["call"], c["form"], c.get("ord", "pf")) for k, c in enumerate(cases)]
     chunks = [work[i:i + 100] for i in range(0, len(work), 100)]
     recs = {}
     with mp.Pool(16) as pool:
